@@ -341,6 +341,22 @@ func (e *kvElection) attemptAcquireWithRetry(ctx context.Context) {
 	}
 }
 
+var errNotRecordOwner = fmt.Errorf("leadership record is no longer owned by this instance")
+
+// ownsRecord reads the record and reports whether it still carries this
+// instance's id and the given term token.
+func (e *kvElection) ownsRecord(termToken string) bool {
+	entry, err := e.kv.Get(e.key)
+	if err != nil || entry == nil {
+		return false
+	}
+	var payload leadershipPayload
+	if err := json.Unmarshal(entry.Value(), &payload); err != nil {
+		return false
+	}
+	return payload.ID == e.cfg.InstanceID && payload.Token == termToken && termToken != ""
+}
+
 // isStopped reports whether Stop/StopWithContext has been called (and Start not
 // since). Multi-step acquisitions check it between store operations: a stopped
 // election issues no new store operation.
@@ -881,8 +897,17 @@ func (e *kvElection) StopWithContext(ctx context.Context, opts StopOptions) erro
 	if opts.DeleteKey && wasLeader {
 		// The store call cannot be cancelled; do not let it hold up the caller
 		// beyond the deadline.
+		// While the goroutines were being waited for, the record may have expired
+		// and a successor may have acquired the key: only the owner deletes. (The
+		// store interface has no revision-checked delete, so the check narrows the
+		// window to the read-then-delete round trip instead of closing it.)
+		termToken := e.Token()
 		deleted := make(chan error, 1)
 		go func() {
+			if !e.ownsRecord(termToken) {
+				deleted <- errNotRecordOwner
+				return
+			}
 			deleted <- e.kv.Delete(e.key)
 		}()
 		var err error
